@@ -138,6 +138,25 @@ pub fn run(ctx: &Ctx) {
         let toks: Vec<String> = idx.iter().enumerate().map(|(j, x)| if j == p { la[k].clone() } else { w[*x].to_string() }).collect();
         check_phrase(ctx, "S4b-lookalike-of-the-word-in-place", i, &toks.join(" "));
     });
+    // S4c: edits of the word in place, for ALL 2048 words (so every word length 3..8 and every shared prefix occurs): a
+    // suffix or prefix glued on, the 4-letter abbreviation other wallets accept, the last letter dropped or doubled, the
+    // word twice without a space, an inner letter swapped. The phrase is valid with the unedited word; the edited token is
+    // (with few exceptions the reference knows) not a list word
+    fn edits(w: &str) -> Vec<String> {
+        let mut v = vec![format!("{w}s"), format!("{w}x"), format!("x{w}"), w[..w.len() - 1].to_string(), format!("{w}{}", &w[w.len() - 1..]), format!("{w}{w}"), format!("{w}-"), format!("{w}.")];
+        if w.len() > 4 { v.push(w[..4].to_string()); }
+        let b = w.as_bytes(); let mut sw = b.to_vec(); sw.swap(1, 2); v.push(String::from_utf8(sw).unwrap());
+        v
+    }
+    ctx.sweep("S4c-edit-of-the-word-in-place", "for each of the 2048 words at position 0 of a valid 12-word phrase (and at the last position of a valid 24-word phrase): the word with a glued suffix s / x / - / ., a glued prefix, without its last letter, with it doubled, written twice, abbreviated to 4 letters, with two letters swapped", 2048 * 10 * 2, |i| {
+        let (wi, k, long) = ((i / 20) as usize, (i % 10) as usize, (i / 10) % 2 == 1);
+        let idx = if long { let mut x = valid_indices(ctx.seed, 24, 3, None); // the last word carries the checksum: choose the first 23 so that word wi is the valid last word if possible
+                x[23] = wi; let fixed = bip39::complete_last(&x[..23], wi); if fixed != wi { return; } x } else { valid_indices(ctx.seed, 12, 3, Some((0, wi))) };
+        let p = if long { 23 } else { 0 };
+        let e = edits(w[idx[p]]); if k >= e.len() || e[k].is_empty() { return; }
+        let toks: Vec<String> = idx.iter().enumerate().map(|(j, x)| if j == p { e[k].clone() } else { w[*x].to_string() }).collect();
+        check_phrase(ctx, "S4c-edit-of-the-word-in-place", i, &toks.join(" "));
+    });
     // S5: whitespace layout
     let seps = [" ", "  ", "\t", "\n", "\r\n", " \t ", "\u{a0}", "\u{2003}", "\u{3000}", "\u{b}", "\u{c}", "\u{85}", "\u{200b}", ""];
     let edges = ["", " ", "\n", "\t \r\n", "\u{3000}"];
